@@ -3,7 +3,7 @@
     protocol monitor never fire; see there and Machine.v ([err_due], [check_call], [check_quiescent])
     for their exact meaning.  combine is the recorded exception (KF1), with its witness. *)
 From CB Require Import ProofLib Spec MonitorSound Results.
-From CB Require Import Inv_map Inv_filter Inv_scan Inv_skip Inv_take Inv_merge Inv_concat Inv_combine Inv_share.
+From CB Require Import Inv_map Inv_filter Inv_scan Inv_skip Inv_take Inv_merge Inv_concat Inv_combine Inv_share Inv_flatten.
 
 Theorem C05_map (f : val -> val) p (c : cfg (map_op f)) :
   nsinks p = 1 -> resub p = false -> no_nest p = false -> c14 p = false -> reach p g_std c -> errors_ok (ms c).
@@ -39,6 +39,11 @@ Theorem C05_concat (n : nat) p (c : cfg (concat_op n)) :
   nsinks p = 1 -> resub p = false -> no_nest p = false -> c14 p = false -> late_ok p = false -> reach p g_std c -> errors_ok (ms c).
 Proof. exact (fun H1 H2 H3 H4 H5 Hc => @errors_ok_nil _ (proj1 (@concat_safe n p H1 H2 H3 H4 H5 c Hc))). Qed.
 Print Assumptions C05_concat.
+
+Theorem C05_flatten p (c : cfg flatten_op) :
+  nsinks p = 1 -> resub p = false -> no_nest p = false -> c14 p = false -> late_ok p = false -> reach p g_flatten c -> errors_ok (ms c).
+Proof. exact (fun H1 H2 H3 H4 H5 Hc => @errors_ok_nil _ (proj1 (@flatten_safe p H1 H2 H3 H4 H5 c Hc))). Qed.
+Print Assumptions C05_flatten.
 
 Theorem C05_share p (c : cfg share_op) :
   resub p = true -> no_nest p = false -> c14 p = false -> late_ok p = false -> reach p g_share c -> errors_ok (ms c).
